@@ -552,6 +552,74 @@ def h_tiles_other_crs_bulge(via):
     prove("tile_reached_only_through_the_bend_of_an_edge_is_listed", listed, when=And(meets_bulge, Not(meets_body)))
 
 
+# ---- Q9: tiles of a control-point grid have curved edges --------------------------------------------
+def h_gcp_tile_outline(apex):
+    """a tiled control-point grid whose pixel->world map bends the rows (a tent-shaped bump along x,
+    apex on one of the points the library samples an outline at): a query that meets a tile only
+    where its edge bulges is answered with that tile -- the tile's footprint is its outline sampled
+    along the edges, not the quadrilateral of its corners"""
+    import odc.geo.geobox as gbx
+    import odc.geo.geom as gm
+    from odc.geo.crs import CRS
+    from odc.geo.gcp import GCPGeoBox
+
+    from .c14 import _Rects
+
+    conc = symx.concrete_mode()
+    d = Real("bump_height")
+    assume(And(d > 0, d <= 60))
+    kv = apex  # which of the 16 outline samples of tile column 1 carries the apex (grid parameter)
+    x0 = 16 + F(16 * kv, 15)  # pixel x of the apex (tile column 1 spans x in [16, 32])
+    half = F(16, 15)  # the tent is one sample spacing wide on either side
+
+    def bump(x):
+        # piecewise linear in x, zero outside [x0 - half, x0 + half]
+        if isinstance(x, symx.Sym):
+            if bool(Or(x <= x0 - half, x >= x0 + half)):
+                return 0
+            return d * (1 - (x - x0) / half) if bool(x >= x0) else d * (1 + (x - x0) / half)
+        xf = F(x) if not isinstance(x, float) else F(x).limit_denominator(10**9)
+        if xf <= x0 - half or xf >= x0 + half:
+            return 0
+        return d * (1 - (xf - x0) / half) if xf >= x0 else d * (1 + (xf - x0) / half)
+
+    class _Map:
+        crs = CRS("epsg:3857")
+
+        def p2w(self, x, y):
+            return (x * 10, 480 - y * 10 + bump(x))
+
+        def w2p(self, X, Y):
+            x = X / 10
+            return (x, (480 - Y + bump(x)) / 10)
+
+    g = GCPGeoBox((48, 64), _Map())
+    gbt = gbx.GeoboxTiles(g, (16, 16))
+    l, b, w, h = Real("l"), Real("b"), Real("w"), Real("h")
+    assume(And(w > 0, h > 0, w <= 100, h <= 100, l >= -100, l <= 700, b >= -100, b <= 700))
+    q = _Rects([(l, b, l + w, b + h)], g.crs)
+    saved_box, saved_G = gm.box, gbx.Geometry
+    from .c16 import FakeGeometry, setup_fakegeom
+
+    if conc:
+        setup_fakegeom()  # the replay runs in the same stand-in geometry
+    gm.box = lambda l_, b_, r_, t_, crs: FakeGeometry([(l_, b_), (l_, t_), (r_, t_), (r_, b_), (l_, b_)], crs)
+    try:
+        got = list(gbt.tiles(q))
+    finally:
+        gm.box = saved_box
+    # tile (0, 1): rows 0..16, columns 16..32; its upper edge bulges upwards by the bump
+    x_lo, x_hi = 160, 320
+    y_lo = 480 - 160
+    y_hi = 480 + ex(d)  # the apex sits on a sampled point of the upper edge: the outline reaches it
+    listed = Or(*[And(t[0] == 0, t[1] == 1) for t in got]) if got else False
+    meets_bulge_only = And(ex(l) < 10 * x0, ex(l) + ex(w) > 10 * x0, ex(b) < y_hi, ex(b) + ex(h) > 480 + ex(d) / 2, ex(b) >= 480)
+    prove("tile_met_only_where_its_edge_bulges_is_returned", listed, when=meets_bulge_only)
+    # (the map bends every row alike: the lower edge of this tile bulges upwards too, by at most d)
+    meets_body = And(ex(l) < x_hi, ex(l) + ex(w) > x_lo, ex(b) < 480, ex(b) + ex(h) > y_lo + ex(d))
+    prove("tile_met_in_its_body_is_returned", listed, when=meets_body)
+
+
 def replay_bulge(param, model):
     """the same law on real PROJ: an Albers destination tile over a lon/lat source raster; which
     source tiles are needed is computed pixel by pixel with pyproj, and compared with what the
@@ -644,6 +712,11 @@ OBLIGATIONS = [
        bounds="query rectangle, position / width / depth (<= 60 m) of the bend symbolic; 3x4 tiles of 16 px",
        stubs=("union-of-rectangles geometry whose to_crs() maps the vertices only unless a finite resolution is given (the library's own contract for to_crs); PROJ itself replaced by that stand-in, replay on real PROJ with a fixed witness",),
        setup=setup_range_geom, timeout_ms=20000, custom_replay=replay_bulge),
+    Ob("Q9_gcp_tile_outline", h_gcp_tile_outline, tiered([dict(apex=4)], [dict(apex=a) for a in (1, 4, 8, 11, 14)]),
+       descr="tiles of a control-point grid: the footprint used by tile queries is the outline sampled along the edges (a tile met only where its edge bulges is returned), not the quadrilateral of its corners",
+       functions=("odc.geo.geobox.GeoboxTiles.tiles", "odc.geo.geobox.GeoBoxBase.extent", "odc.geo.gcp.GCPGeoBox.__getitem__"),
+       bounds="3x4 tiles of 16 px; pixel->world map with a tent-shaped bump of symbolic height whose apex lies on one of the 16 outline samples (index from a grid); symbolic query rectangle",
+       stubs=("control-point mapping stand-in (piecewise-linear bump)", "vertex-list / union-of-rectangles geometries; disjoint() judged on bounding boxes"), setup=setup_range_geom, timeout_ms=20000),
     Ob("Q2_disjoint_no_error", h_disjoint_no_error, fixed(dict(axis="x"), dict(axis="y")), descr="same-CRS rasters that do not overlap (apart or touching): no error and no dependencies",
        functions=("odc.geo.geobox.GeoboxTiles.grid_intersect",), bounds="gap >= 0 symbolic, either side", setup=setup),
 ]
